@@ -102,6 +102,8 @@ C('add_many', 'with-numbers-opts', lambda g: (([_b(g)[0], 2.5, _b(g)[1], 1],
     1e-6, 3, 1), {}))
 C('outer_many', 'three', lambda g: (([tt(g, [2, 3]), tt(g, [3]), tt(g, [2, 2])],), {}))
 C('outer_many', 'empty', lambda g: (([],), {}))
+C('outer_many', 'single', lambda g: (([tt(g, [2, 3, 2])],), {}))
+C('add_many', 'single', lambda g: (([tt(g, [2, 3, 2])],), {}))
 C('copy', 'tt', lambda g: ((tt(g),), {}))
 C('copy', 'array', lambda g: ((g.normal(size=(3, 4)),), {}), passthrough=False)
 C('copy', 'array-0d', lambda g: ((np.array(float(g.normal())),), {}),
@@ -220,6 +222,18 @@ for _gt in ('l', 'm', 'r'):
         g.normal(size=(6, 4)), 1e-1, 3), dict(rel=True, give_to=_gt)))
 C('matrix_skeleton', 'hermitian', lambda g: (((lambda a: a + a.T)(
     g.normal(size=(4, 4))), 1e-8, 3, True), {}))
+# rank cap far below the matrix size (a partial / iterative factorisation
+# would be tempting here)
+C('matrix_skeleton', 'big-small-cap', lambda g: ((g.normal(size=(120, 90)),
+    1e-10, 3), {}))
+C('matrix_skeleton', 'big-small-cap-rel', lambda g: ((g.normal(size=(64, 200)),
+    1e-3, 2), dict(rel=True, give_to='r')))
+C('matrix_svd', 'big-small-cap', lambda g: ((g.normal(size=(150, 80)), 1e-10,
+    2), {}))
+C('svd', 'big-small-cap', lambda g: ((g.normal(size=(40, 40, 6)), 1e-10, 2),
+    {}))
+C('truncate', 'big-modes-small-cap', lambda g: ((tt(g, [30, 40, 30], 12), 1e-10,
+    2), dict(is_eigh=False)), heavy=True)
 C('matrix_svd', 'wide', lambda g: ((g.normal(size=(4, 7)), 1e-2, 3), {}))
 C('matrix_svd', 'tall', lambda g: ((g.normal(size=(7, 4)),), {}))
 C('svd', 'd3', lambda g: ((g.normal(size=(3, 4, 2)), 1e-2), {}))
@@ -486,6 +500,24 @@ C('als', 'adaptive', lambda g: _als(g, r=3, e_adap=1e-2), heavy=True)
 # als-adaptive-use_stab-pair)
 C('als', 'adaptive-stab', lambda g: _als(g, r=3, use_stab=True), heavy=True,
     raises=AttributeError)
+def _als_swap(g):
+    # full-grid data of a function in which modes 0 and 2 interact strongly
+    # (the experimental option then really swaps neighbouring modes)
+    # (equal mode sizes only: with unequal ones the unmodified routine can
+    # raise IndexError after two successive swaps - its mode-order bookkeeping
+    # for the validation set, outside every property, see DESIGN.md 8.7)
+    n = [3, 3, 3, 3]
+    I = np.array(list(np.ndindex(*n)), dtype=np.int64)
+    if g.random() < 0.5:
+        I = np.asfortranarray(I)
+    J = I.astype(float)
+    y = (np.cos(1.3 * J[:, 0] + 0.7 * J[:, 0] * J[:, 1]) + np.sin(J[:, 2]
+        + J[:, 3] * J[:, 1]) + J[:, 0] * J[:, 3]) * (1 + 0.01 * g.normal())
+    return (I, y, tt(g, n, 2)), dict(nswp=3, r=6, I_vld=I.copy(),
+        y_vld=y.copy(), allow_swap=True, info={})
+
+
+C('als', 'adaptive-swap', _als_swap, heavy=True)
 C('als', 'skip-cores', lambda g: (lambda a, k: ((a[0][a[0][:, 1] != 2],
     a[1][a[0][:, 1] != 2], a[2]), dict(k, allow_skip_cores=True)))(*_als(g)),
     heavy=True)
